@@ -248,6 +248,7 @@ class Engine:
             probe = v.at(self, State(), z3.Int('probe!%d' % self.counter)) if True else None
             kind = 'real' if isinstance(probe, Num) else 'obj'
             a = arrays.sym_array(self, '%s!%d' % (base, self.counter), elem=kind, taint=taint, np=v.np)
+            a.len_taint = v.taint if v.len_taint is None else v.len_taint     # the length keeps its own (entry) taint
             return a
         cls = v.cls if isinstance(v, Obj) else ('list' if isinstance(v, Tup) and v.kind == 'list' else
                                                 'dict' if isinstance(v, DictV) else None)
@@ -295,6 +296,8 @@ class Engine:
             return self.uf('truthy', V, B)(v.t)
         if isinstance(v, (FuncV, Bound, Ref)):
             return TRUE
+        if hasattr(v, '_at') and not v.np:
+            return v.n > 0           # a list / tuple is true iff non-empty
         raise Unsupported('truth(%r)' % (v,))
 
     # ---- spec expressions (same evaluator, spec mode: no obligations, extra names)
@@ -302,6 +305,11 @@ class Engine:
         """mode 'assume': forall(...) becomes a quantified fact of `st`; mode 'prove': it is Skolemised.
         forall may only occur in positive positions (conjunct / right-hand side of implies)."""
         st2 = st.fork()
+        if getattr(self, 'entry', None) is not None:
+            for k_, v_ in self.entry_names().items():
+                st2.env.setdefault(k_, v_)
+            for g_, t_ in self.entry.ghost.items():
+                st2.env.setdefault(g_ + '__pre', Num(t_) if t_.sort() != B else BoolV(t_))
         if extra:
             st2.env.update(extra)
         self._spec_mode = getattr(self, '_spec_mode', 0) + 1
@@ -355,6 +363,8 @@ class Engine:
         if self.hooks and hasattr(self.hooks, 'on_return'):
             self.hooks.on_return(self, st, val, node)
         extra = dict(self.entry_names())
+        for g, t in self.entry.ghost.items():
+            extra[g + '__pre'] = Num(t) if t.sort() != B else BoolV(t)
         extra['result'] = val
         for name, text in self.c.get('ensures', {}).items():
             t, facts = self.spec(text, st, extra, mode='prove')
@@ -385,6 +395,10 @@ class Engine:
             if isinstance(val, Tup) and len(val.items) == len(tgt.elts):
                 for t, v in zip(tgt.elts, val.items):
                     self.assign_target(st, t, v, node)
+            elif hasattr(val, '_at'):
+                st.assume(val.n == len(tgt.elts))        # unpacking a sequence of another length raises ValueError
+                for k, t in enumerate(tgt.elts):
+                    self.assign_target(st, t, val.at(self, st, z3.IntVal(k)), node)
             else:
                 base = self.to_V(val) if not isinstance(val, (FuncV, Bound)) else self.fresh('unp', V)
                 for k, t in enumerate(tgt.elts):
@@ -591,7 +605,7 @@ class Engine:
         no = self.loop_ord[id(node)]
         return no, self.c.get('loops', {}).get(no, {})
 
-    def havoc_mods(self, st, mods, taints, tag):
+    def havoc_mods(self, st, mods, taints, tag, ghosts=None):
         mods = [m for m in mods if not m.startswith('?')] + \
                [m[1:] for m in mods if m.startswith('?') and m[1:] in st.env and m[1:] not in mods]
         for m in mods:
@@ -600,6 +614,11 @@ class Engine:
                 if isinstance(old, (FuncV, Ref)):
                     continue
                 st.env[m] = self.fresh_like(old, '%s_%s' % (m, tag), taint=t_or(old.taint, taints.get(m, FALSE)))
+                if ghosts and ghosts.get(m) is not None and not isinstance(st.env[m], (Num, BoolV)):
+                    try:
+                        st.env[m].ghost = ghosts[m]
+                    except AttributeError:
+                        pass
             else:
                 ty = self.c.get('local_types', {}).get(m)
                 if ty:
@@ -643,21 +662,22 @@ class Engine:
             self.oblige(s1, 'loop%d/init#%s' % (no, inv), t, kind='loop-invariant-init')
         # 2. arbitrary iteration (taint fixpoint on the havocked variables)
         taints = {}
+        ghosts = {}
         fields_before = dict(st.fields)
         for rnd in range(6):
             body = st.fork()
-            self.havoc_mods(body, mods, taints, 'it%d' % no)
+            self.havoc_mods(body, mods, taints, 'it%d' % no, ghosts)
             self.havoc_ghost(body, L, 'it%d' % no)
             body.fields = {kk: vv for kk, vv in body.fields.items() if kk[1] not in L.get('fields_modified', ())}
             g = guard_fn(body, k)
+            if g is not None:
+                body.assume(g)
             if setup_iter:
                 setup_iter(body, k, entry=False)
             for inv, t, facts in self.inv_terms(body, L, {}):
                 for f in facts:
                     body.assume(f)
                 body.assume(t)
-            if g is not None:
-                body.assume(g)
             ghost_at_body_start = dict(body.ghost)
             mark = len(self.obligations)
             nmark = len(self.canaries)
@@ -670,7 +690,15 @@ class Engine:
                     if m in e.env:
                         tt = t_or(new_taints.get(m, FALSE), e.env[m].taint)
                         new_taints[m] = z3.simplify(tt)
-            stable = all(str(new_taints.get(m, FALSE)) == str(taints.get(m, FALSE)) for m in mods)
+            new_ghosts = dict(ghosts)
+            for e in ends + breaks:
+                for m in mods:
+                    g = getattr(e.env.get(m), 'ghost', None)
+                    if g and not isinstance(e.env.get(m), (Num, BoolV)) and ghosts.get(m) is None:
+                        new_ghosts[m] = g
+            stable = all(str(new_taints.get(m, FALSE)) == str(taints.get(m, FALSE)) for m in mods) and \
+                all(str(new_ghosts.get(m)) == str(ghosts.get(m)) for m in mods)
+            ghosts = new_ghosts
             if stable:
                 break
             taints = new_taints
@@ -690,7 +718,7 @@ class Engine:
                 self.oblige(e3, 'loop%d/preserved#%s' % (no, inv), t, kind='loop-invariant-preserved')
         # 3. after the loop
         after = st.fork()
-        self.havoc_mods(after, mods, taints, 'ex%d' % no)
+        self.havoc_mods(after, mods, taints, 'ex%d' % no, ghosts)
         if 'ghost_modifies' not in L:
             # only ghost variables that some path through the body actually changed need to be forgotten
             changed = [g for g in st.ghost if any(not z3.eq(e.ghost.get(g, ghost_at_body_start[g]), ghost_at_body_start[g])
@@ -759,6 +787,8 @@ class Engine:
                             o.env[node.target.id] = Num(self.fresh('loopvar', I))
             return outs
         # symbolic sequence: arbitrary element
+        if getattr(itv, 'is_dictsym', False):
+            itv = itv.keys_arr()          # iterating a dict yields its keys
         arr = itv if hasattr(itv, '_at') else None
         if isinstance(itv, Tup):
             itv_t = self.to_V(itv)
@@ -1035,7 +1065,10 @@ class Engine:
         pol = self.c.get('division', 'python')
         if z3.is_rational_value(b) or z3.is_int_value(b):
             return
-        if npy and pol != 'abort':
+        if npy and node.lineno in self.c.get('ieee_zero_division_assumed_away', ()):
+            self.note('ASSUMED: numpy division at line %d has a non-zero divisor (IEEE inf path argued in the contract, not proved)' % node.lineno)
+            st.assume(b != 0)
+        elif npy and pol != 'abort':
             # numpy scalar: x/0 = inf and execution continues; the divisor must be proved non-zero
             self.oblige(st, 'div-nonzero@L%d' % node.lineno, b != 0, kind='numpy-division-defined')
             st.assume(b != 0)
@@ -1174,7 +1207,7 @@ class Engine:
         # obligations raised inside the element expression were recorded against st2's path (sound)
         tt = t_or(*(taints + [v.taint for v in vals]))
         o = Obj(self.fresh(kind, V), cls=kind, taint=tt)
-        o.ghost = {'elem_ghost': getattr(vals[-1], 'ghost', None), 'elem': vals[-1]}
+        o.ghost = {'elem_ghost': getattr(vals[-1], 'ghost', None), 'elem': vals[-1], 'len_taint': t_or(*taints)}
         return o
 
     def ev_ListComp(self, st, e):
@@ -1260,6 +1293,13 @@ class Engine:
                 return Num(term, taint=tt)
             if rs == B:
                 return BoolV(term, taint=tt)
+            if rty.startswith('seq:') or rty.startswith('arr:'):
+                cache = self.__dict__.setdefault('_pure_seq', {})
+                kk = term.sexpr()
+                if kk not in cache:
+                    self.counter += 1
+                    cache[kk] = self.typed(rty, 'ret_%s!%d' % (key.strip('.').replace('.', '_'), self.counter), taint=tt)
+                return cache[kk]
             return Obj(term, cls=rty[4:] or None, taint=tt)
         # havoc
         self.note('havoc: %s' % (mname if recv is None else '<obj>.' + mname))
@@ -1343,6 +1383,13 @@ class Engine:
             st.assume(t)
         guard = z3.And(*pre_terms) if pre_terms else TRUE
         tt = t_or(*[v.taint for v in bound.values()])
+        if cc.get('returns_public'):
+            tt = FALSE          # justified by the callee's own flow/return-value obligation
+        pre_ghost = {}
+        for g in cc.get('ghost_modifies', []):
+            if g in st.ghost:
+                pre_ghost[g + '__pre'] = Num(st.ghost[g])
+                st.ghost[g] = self.fresh(g + '_after_' + key.strip('.'), st.ghost[g].sort())
         rty = cc.get('returns', 'obj:')
         if cc.get('pure'):
             sorts = [V] * len(names)
@@ -1361,6 +1408,7 @@ class Engine:
             res = self.typed(rty, 'ret_%s!%d' % (key.strip('.'), self.counter + 1), taint=tt)
             self.counter += 1
         ex = dict(bound)
+        ex.update(pre_ghost)
         ex['result'] = res
         for name, text in cc.get('ensures', {}).items():
             t, facts = self.spec(text, st, ex)
@@ -1433,6 +1481,10 @@ class Engine:
                 a = args[0].real()
                 s = self.sqrt_term(a)
                 pol = self.c.get('sqrt', 'oblige')
+                if not self.in_spec() and pol == 'nan' and name != 'math.sqrt':
+                    # np.sqrt of a negative number is NaN: nothing is known about the result
+                    st.assume(z3.Implies(a >= 0, z3.And(s >= 0, s * s == a)))
+                    return Num(s, npy=True, taint=tt)
                 if not self.in_spec():
                     if name == 'math.sqrt' or pol == 'abort':
                         st.assume(a >= 0)     # math.sqrt raises ValueError; NaN-abort sites are listed in the contract
